@@ -531,13 +531,24 @@ Proof. split; [exact ex3_full_hyps | exact reach3_example]. Qed.
    (1) base_ok of a reached base was a premise of reach03a's join          - now an invariant (AS, R4);
    (2) auth_end_b u was part of excl03 for set_path / quirks set_pathname   - now an invariant (HE, R4);
    (3) the host half of excl03 is stated on the result, Known_F_C02_4 on the argument - related in R5 under
-       host_nonempty (without it the statement below is false for abstract host functions: a Host::parse that
-       returns the empty host for a non-empty text makes set_host("x") on "http://h:81/" leave wf_b);
+       host_nonempty (without it the statement below is false for abstract host functions:
+       C03_reachability_full_statement_refuted);
    (4) for path_segments_mut sessions on an authority-less record excl03 has path_bad, known_step only the marker:
        no such session reaches the difference (C03_sessions_no_2slash).
    The corrected statement is C03_reachability_full_statement2, proved: C03_reachability_full (R5). *)
 Definition C03_reachability_full_statement : Prop :=
   forall dbg hp hpo hd, HostWf hp hpo hd -> forall u, Reachable dbg hp hpo hd u -> wf_b u = true.
+
+(* it is FALSE as stated: HostWf does not exclude a Host::parse that returns the empty host for a non-empty text; with
+   such a function set_host(Some "x") on "http://h:81/" (outside known_step: the argument is not empty) gives
+   "http://:81/".  Not a defect of the crate - url::Host::parse fails with EmptyHost instead (host_nonempty, true of
+   the host model: C02_host_nonempty_model); the statement lacked the hypothesis, which C03_reachability_full has *)
+Theorem C03_reachability_full_statement_refuted : ~ C03_reachability_full_statement.
+Proof.
+  intros H. destruct full_statement_witness as (u & R & Hw).
+  rewrite (H true bad_hp2 ex_hp ex_hd bad_hp2_wf u R) in Hw. discriminate.
+Qed.
+Print Assumptions C03_reachability_full_statement_refuted.
 
 (* non-vacuity: the host hypothesis has an instance; with it, joins of every kind of relative reference are
    outside the file class, meet the premises on the base, and give the expected well-formed records *)
